@@ -209,6 +209,10 @@ func Symbolic() bool { return false }
 // GoMode selects how the engine treats go statements ("sync", "defer", "skip").
 func GoMode(mode string) {}
 
+// MapOrder makes the engine explore every iteration order of the maps ranged over afterwards;
+// natively the Go runtime picks an order.
+func MapOrder(on bool) {}
+
 // Note is ignored.
 func Note(s string) {}
 
